@@ -21,12 +21,14 @@ var engines = map[string]func(*engine.Ctx){
 	"C03": engine.C03,
 	"C04": engine.C04,
 	"C05": engine.C05,
+	"C06": engine.C06,
 	"C07": engine.C07,
 	"C08": engine.C08,
 	"C09": engine.C09,
 	"C10": engine.C10,
 	"C11": engine.C11,
 	"C13": engine.C13,
+	"C18": engine.C18,
 }
 
 func usage() {
